@@ -19,7 +19,7 @@ ID = "C10"
 LEVEL = "exploration"
 CASE_TIMEOUT = 1800
 RULE = (
-    "one case = one history: a random sequence of 40-160 operations over a pool of 3-7 parsed objects (all archetypes; two pool entries share one string): "
+    "one case = one history: a random sequence of 40-160 operations over a pool of 3-12 parsed objects (all archetypes; two pool entries share one string; most entries are accompanied by a twin whose fragments are the same molecules written in another atom order; the fresh-process baseline is computed twice, working through the pool in opposite orders, and must agree with itself): "
     "parse again, generate(rng=seeded), generate() with the library's global generator (re-seeded / advanced arbitrarily), str, generate_string(False), "
     "elements / gen_mirror (and mutation of what they return), gen_reaction_graph, gen_stochastic_atom_graph + AtomGraph.generate, get_ensemble_prob on "
     "short chains, force-field typing with default and explicit files, generation that fails midway (incompatible prefix) followed by a retry, deepcopy. "
@@ -29,11 +29,11 @@ RULE = (
     "other operations in between; distinct by history."
 )
 ASSUMPTIONS = ["the baseline process runs without contracts; equality therefore also shows that the harness-side monitors do not perturb the library"]
-FLOORS = {"quick": {"histories": 40, "seeded_generations_compared": 600, "fingerprints_compared": 3000, "distinct_nontrivial": 30}, "thorough": {"histories": 500}}
+FLOORS = {"quick": {"histories": 28, "seeded_generations_compared": 400, "fingerprints_compared": 3000, "distinct_nontrivial": 20, "respelled_twins_in_pool": 20, "fresh_process_order_pairs": 100}, "thorough": {"histories": 500}}
 
 
 def plan(tier, seed):
-    n = 48 if tier == "quick" else 640
+    n = 32 if tier == "quick" else 640
     return [{"seed": seed * 1001303 + i, "len": 60 if tier == "quick" else 120} for i in range(n)]
 
 
@@ -191,9 +191,18 @@ def run_case(case):
     for k in range(K - 1):
         for _try in range(10):
             try:
-                subj = W.Subject(case["seed"] * 977 + k * 13 + _try, small=rng.random() < 0.7, typable=rng.random() < 0.3, families=["gauss", "uniform", "poisson", "schulz_zimm"], mean_units=rng.choice([1.5, 2.5, 4]))
+                kw = dict(small=rng.random() < 0.7, typable=rng.random() < 0.3, families=["gauss", "uniform", "poisson", "schulz_zimm"], mean_units=rng.choice([1.5, 2.5, 4]))
+                subj = W.Subject(case["seed"] * 977 + k * 13 + _try, **kw)
                 gbigsmiles.Molecule(subj.text)
                 texts.append(subj.text)
+                # the same description with every fragment that has one written in its other spelling (same molecules, other atom order):
+                # a cache keyed by the chemistry instead of the text makes the two interfere
+                if rng.random() < 0.45:
+                    tw = W.Subject(case["seed"] * 977 + k * 13 + _try, respell=True, **kw)
+                    if tw.text not in texts:
+                        gbigsmiles.Molecule(tw.text)
+                        texts.append(tw.text)
+                        cnt["respelled_twins_in_pool"] += 1
                 break
             except Exception:
                 continue
@@ -203,9 +212,20 @@ def run_case(case):
     # baseline first: every (text, seed) in a fresh process; strings whose generation is slow or hits the watchdog
     # (runaway Schulz-Zimm draws, C11 finding) are dropped from the pool
     try:
-        base = baseline([[t, s] for t in texts for s in seeds])
+        items = [[t, s] for t in texts for s in seeds]
+        base = baseline(items)
+        # a second fresh process works through the same items in the opposite order: "whatever was parsed or generated before"
+        items_rev = [[t, seeds[0]] for t in texts[::-1]]
+        base_rev = baseline(items_rev)
     except Exception as exc:
         return {"harness_error": f"baseline process failed: {exc}"}
+    for t, s0 in items_rev:
+        a, b = base[f"{t}|{s0}"], base_rev[f"{t}|{s0}"]
+        cnt["fresh_process_order_pairs"] += 1
+        if "watchdog" in (a["status"], b["status"]):
+            continue
+        if (a["status"], a.get("smiles"), a.get("exc"), a["str"], a["noext"], a["generable"]) != (b["status"], b.get("smiles"), b.get("exc"), b["str"], b["noext"], b["generable"]) or abs(a.get("weight", 0.0) - b.get("weight", 0.0)) > 1e-9:
+            viol.append({"cls": "c10.generation-depends-on-what-was-generated-before", "msg": f"{t!r} with seed {s0}: {a.get('smiles', a.get('exc'))} ({a.get('weight')}) in a fresh process that worked through the pool in one order, {b.get('smiles', b.get('exc'))} ({b.get('weight')}) in a fresh process that used the opposite order", "texts": texts})
     texts = [t for t in texts if all(base[f"{t}|{s}"]["status"] != "watchdog" and base[f"{t}|{s}"]["seconds"] < 3.0 for s in seeds)]
     if not texts:
         return {"viol": [], "cnt": {"pool_failed": 1}, "nt": []}
